@@ -518,6 +518,11 @@ class ndarray:
     def __array__(self):
         return self
 
+    def __getattr__(self, name):
+        if name.startswith('_'):
+            raise AttributeError(name)
+        raise ModelGap("ndarray.%s is not modelled" % name)
+
     def __repr__(self):
         return "array(%r, kind=%s)" % (self.tolist(), self.kind)
 
@@ -1862,6 +1867,19 @@ def asfortranarray(a, dtype=None):
 def ascontiguousarray(a, dtype=None):
     a = asarray(a, dtype=dtype) if dtype is not None else asarray(a)
     return a if a._c_contiguous() else a.copy()
+
+
+def roll(a, shift, axis=None):
+    a = asarray(a)
+    if axis is not None or a.ndim != 1:
+        raise ModelGap("roll of a multi-dimensional array / along an axis")
+    vals = a._flat_values()
+    n = len(vals)
+    if n == 0:
+        return a.copy()
+    k = int(shift) % n
+    vals = vals[n - k:] + vals[:n - k]
+    return ndarray(vals, list(range(n)), (n,), a.kind)
 
 
 def flip(a, axis=None):
